@@ -128,14 +128,15 @@ def best_stable_by_blocks(P1, P2, V1, V2, offs):
     return mu
 
 
-def call_irving(P1, P2, V1, V2, zero=True, with_profiles=True):
+def call_irving(P1, P2, V1, V2, zero=True, with_profiles=True, rank_dtype=None):
     import numpy as np
+    rank_dtype = rank_dtype or np.int64
     from socialchoicekit.deterministic_matching import Irving
     from socialchoicekit.profile_utils import StrictCompleteProfile, IntegerValuationProfile
     v1 = IntegerValuationProfile.of(np.array(V1, dtype=np.int64))
     v2 = IntegerValuationProfile.of(np.array(V2, dtype=np.int64))
     if with_profiles:
-        out = Irving(zero_indexed=zero).scf(v1, v2, StrictCompleteProfile.of(np.array(P1, dtype=np.int64)), StrictCompleteProfile.of(np.array(P2, dtype=np.int64)))
+        out = Irving(zero_indexed=zero).scf(v1, v2, StrictCompleteProfile.of(np.array(P1, dtype=rank_dtype)), StrictCompleteProfile.of(np.array(P2, dtype=rank_dtype)))
     else:
         out = Irving(zero_indexed=zero).scf(v1, v2)
     return [[int(a), int(b)] for a, b in out]
